@@ -12,7 +12,10 @@ from an implementation transcript):
 * an `Accepted` delivered to node `p` → `ack p slot ci0 ci1 b cmd` with the commit index of `p`
   before and after, its ballot and its log entry at `slot` afterwards;
 * `start p` and a `Promise` delivered to `p` → `prom p bn l0 l1` with the ballot number concerned and
-  `is_leader` of `p` before and after.
+  `is_leader` of `p` before and after;
+* a `Prepare` answered with a `Promise` by node `d` → `pled d b l1` (`is_leader` of `d` afterwards) and one
+  `pcar dst b slot cmd` per log entry the promise carries;
+* a `submit()` on `p` that makes its log grow → `asg p slot`.
 -/
 namespace HappyModel.C12.MP
 open HappyModel.C12.Spec
@@ -39,8 +42,18 @@ def cmdAt (nd : Node) (slot : Nat) : Nat :=
 /-- ballot number `start p` moves to -/
 def startNum (s : St) (p : Nat) : Nat := (((getNode s p).ballot / s.n + 1) * s.n + p) / s.n
 
+/-- the log entries a promise carries, with their positions -/
+def pcarsOf (dst b : Nat) : Nat → List Entry → List LogObs
+  | _, [] => []
+  | k, e :: es => .pcar dst b k e.cmd :: pcarsOf dst b (k + 1) es
+
 def obsStep (s : St) (a : Act) : List LogObs :=
   match a with
+  | .prepare d b =>
+    if (getNode s d).ballot > b then []
+    else .pled d b (getNode (step s a).1 d).isLeader :: pcarsOf (b % s.n) b 1 (getNode s d).log
+  | .submit p _ =>
+    if (getNode s p).isLeader then [.asg p ((getNode s p).log.length + 1)] else []
   | .accepted p slot =>
     let nd' := getNode (step s a).1 p
     [.ack p slot (getNode s p).commit nd'.commit nd'.ballot (cmdAt nd' slot)]
